@@ -4,7 +4,7 @@ PRELUDE = """#![allow(unused, dead_code, unused_mut, unused_variables, unused_im
 use generic_array::functional::*;
 use generic_array::sequence::*;
 use generic_array::typenum::*;
-use generic_array::{arr, GenericArray, GenericArrayIter};
+use generic_array::{arr, ConstArrayLength, GenericArray, GenericArrayIter, IntoArrayLength};
 fn touch<X>(_x: X) {}
 """
 
@@ -28,6 +28,9 @@ def len_program(d):
     body = {
         "zip": "%s %s let _c = a.zip(b, |x, y| x.wrapping_add(y));" % (a, b),
         "eq": "%s %s let _c = a == b;" % (a, b),
+        "inverted_zip": "%s %s let _c: %s = b.inverted_zip(a, |x, y| x.wrapping_add(y));" % (a, b, ga(n)),
+        "inverted_zip2": "%s %s let _c: %s = b.inverted_zip2(a, |x, y| x.wrapping_add(y));" % (a, b, ga(n)),
+        "inverted_zip2_ref": "%s %s let _c: %s = (&b).inverted_zip2(&a, |x, y| x.wrapping_add(*y));" % (a, b, ga(n)),
         "lt": "%s %s let _c = a < b;" % (a, b),
         "split": "%s let (_x, _y) = Split::<u8, %s>::split(a);" % (a, U(k)),
         "pop_back": "%s let (_i, _l) = a.pop_back();" % a,
@@ -50,6 +53,8 @@ def len_program(d):
         "from_chunks_mut": "let mut v: Vec<[u8; %d]> = Vec::new(); let _g: &mut [%s] = GenericArray::from_chunks_mut(&mut v);" % (k, ga(n)),
         "into_chunks": "let v: Vec<%s> = Vec::new(); let _g: &[[u8; %d]] = GenericArray::into_chunks(&v);" % (ga(n), k),
         "into_chunks_mut": "let mut v: Vec<%s> = Vec::new(); let _g: &mut [[u8; %d]] = GenericArray::into_chunks_mut(&mut v);" % (ga(n), k),
+        "const_len": "%s let _c: GenericArray<u8, ConstArrayLength<%d>> = a;" % (a, k),
+        "const_len_into": "%s let _c: GenericArray<u8, <Const<%d> as IntoArrayLength>::ArrayLength> = a; let _d: GenericArray<u8, <%s as IntoArrayLength>::ArrayLength> = _c;" % (a, k, U(n)),
         "map_ann": "%s let _b: %s = a.map(|x| x as u16);" % (a, ga(k, "u16")),
         "zip_ann": "%s %s let _c: %s = a.zip(b, |x, y| (x as u16) + (y as u16));" % (a, b, ga(k, "u16")),
     }[op]
